@@ -52,8 +52,8 @@ def flt(v) -> list[float]:
 class PolyDisc(Discipline):
     """`out_j = c_j + a_j . u + q_j . u**2` with `u` the concatenation of the inputs.
 
-    Every output is an array of size 1.  `spec = {"name", "inputs": [[name, size], ...],
-    "outputs": {out: {"c": c, "a": [...], "q": [...]}}}`.
+    `spec = {"name", "inputs": [[name, size], ...], "outputs": {out: poly | [poly, ...]}}` with
+    `poly = {"c": c, "a": [...], "q": [...]}`; an output given by a list of polynomials is a vector.
     """
 
     def __init__(self, spec: dict[str, Any]) -> None:
@@ -77,11 +77,14 @@ class PolyDisc(Discipline):
             os._exit(1)
         u = self._u(input_data)
         out = {}
-        for name, p in self.spec["outputs"].items():
-            v = float(p["c"])
-            for ai, qi, ui in zip(p["a"], p["q"], u):
-                v += float(ai) * float(ui) + float(qi) * float(ui) * float(ui)
-            out[name] = array([v])
+        for name, ps in self.spec["outputs"].items():
+            vals = []
+            for p in ps if isinstance(ps, list) else [ps]:
+                v = float(p["c"])
+                for ai, qi, ui in zip(p["a"], p["q"], u):
+                    v += float(ai) * float(ui) + float(qi) * float(ui) * float(ui)
+                vals.append(v)
+            out[name] = array(vals)
         return out
 
     def _compute_jacobian(self, input_names=(), output_names=()):
@@ -91,10 +94,11 @@ class PolyDisc(Discipline):
             os._exit(1)
         u = self._u(self.io.data)
         self.jac = {}
-        for name, p in self.spec["outputs"].items():
-            row = [float(ai) + 2.0 * float(qi) * float(ui) for ai, qi, ui in zip(p["a"], p["q"], u)]
+        for name, ps in self.spec["outputs"].items():
+            rows = [[float(ai) + 2.0 * float(qi) * float(ui) for ai, qi, ui in zip(p["a"], p["q"], u)]
+                    for p in (ps if isinstance(ps, list) else [ps])]
             self.jac[name] = {}
             off = 0
             for n, s in zip(self.in_names, self.in_sizes):
-                self.jac[name][n] = array([row[off:off + s]])
+                self.jac[name][n] = array([row[off:off + s] for row in rows])
                 off += s
